@@ -1,5 +1,6 @@
 import TextxVerif.Wire
 import TextxVerif.Out.Cli
+import TextxVerif.Out.CliClick
 /-! Driver for the CLI model (C30).
 ops (env = "mode", "files", "gens"):
   {"op":"generate","args":[tok…],"mode":{"k":"pattern"|"language"|"grammar","lang":s,"registered":b},
@@ -7,6 +8,8 @@ ops (env = "mode", "files", "gens"):
    "gens":[[lang, null | [[name,mandatory]…]]…]}
       → {"exit":n,"calls":[{"file":s|null,"kwargs":[[k,true|s]…]}…],"fail":null|kind}
   {"op":"check","order":[tok…], env…} → {"exit":n,"msgs":[["ok",f] | ["error",kind]…]}
+optional "argv":[tok…] (the command line as typed, after the command name): the answer also carries
+  "click": what `Cli.clickStrip` makes of it (the tuple click hands to the command body)
 kind = "registration" | "exception" | ["located",file,line,col] | ["args","missing"|"undeclared",name]
 -/
 open Lean Wire Cli
@@ -79,24 +82,31 @@ def callJson (c : Call) : Json :=
   Json.mkObj [("file", match c.file with | some f => str f | none => Json.null),
     ("kwargs", Json.arr (c.kwargs.map (fun kv => Json.arr #[str kv.1, valJson kv.2])).toArray)]
 
+/-- optional "argv": when the key is present it must decode -/
+def clickField (j : Json) : Option (List (String × Json)) :=
+  match j.getObjVal? "argv" with
+  | .ok _ => (getStrList? j "argv").map fun argv =>
+      [("click", Json.arr ((clickStrip (argv.map String.toList)).map str).toArray)]
+  | .error _ => some []
+
 def handle (j : Json) : Json :=
   match getStr? j "op" with
   | some "generate" =>
-    match parseEnv j, getStrList? j "args" with
-    | some env, some args =>
+    match parseEnv j, getStrList? j "args", clickField j with
+    | some env, some args, some click =>
       let r := runGenerate env (args.map String.toList)
-      Json.mkObj [("exit", toJson r.exit), ("calls", Json.arr (r.calls.map callJson).toArray),
-        ("fail", match r.fail with | some f => failJson f | none => Json.null)]
-    | _, _ => badOp
+      Json.mkObj ([("exit", toJson r.exit), ("calls", Json.arr (r.calls.map callJson).toArray),
+        ("fail", match r.fail with | some f => failJson f | none => Json.null)] ++ click)
+    | _, _, _ => badOp
   | some "check" =>
-    match parseEnv j, getStrList? j "order" with
-    | some env, some order =>
+    match parseEnv j, getStrList? j "order", clickField j with
+    | some env, some order, some click =>
       let r := runCheck env (order.map String.toList)
       let msg : Msg → Json
         | .ok f => Json.arr #["ok", str f]
         | .error f => Json.arr #["error", failJson f]
-      Json.mkObj [("exit", toJson r.exit), ("msgs", Json.arr (r.msgs.map msg).toArray)]
-    | _, _ => badOp
+      Json.mkObj ([("exit", toJson r.exit), ("msgs", Json.arr (r.msgs.map msg).toArray)] ++ click)
+    | _, _, _ => badOp
   | _ => badOp
 
 def main : IO Unit := serve handle
